@@ -54,7 +54,7 @@ def _case(draw, ctx):
                                selfloops=False, io_outputs=True, pools=pools))
     gates = [x for x in spec["nodes"] if x[1] in S.ALL_GATES]
     nary = [x for x in gates if x[1] in S.NARY]
-    for _ in range(draw(st.sampled_from([0, 1, 2, 3, 5, 7]))):
+    for _ in range(draw(st.sampled_from([0, 1, 2, 3, 5, 7, 9, 12]))):
         if not nary or len(gates) < 2:
             break
         g = draw(st.sampled_from(nary))
@@ -111,8 +111,34 @@ def _series(draw, ctx):
     return {"spec": {"name": "c", "nodes": nodes, "bbtypes": [], "insts": []}, "adv_names": False}
 
 
+@st.composite
+def _entangled(draw, ctx):
+    """One strongly connected component made of a ring through all gates plus several chords (overlapping
+    loops that share nodes), stored in a drawn order."""
+    n = draw(st.integers(4, 10))
+    gates = [f"g{i}" for i in range(n)]
+    order = list(draw(st.permutations(gates)))
+    nodes = [["i0", "input", [], False], ["i1", "input", [], draw(st.booleans())]]
+    byname = {}
+    for k, gname in enumerate(order):
+        x = [gname, draw(st.sampled_from(S.NARY)), [order[k - 1]], draw(st.integers(0, 3)) == 0]
+        byname[gname] = x
+        nodes.append(x)
+    for _ in range(draw(st.integers(2, 9))):
+        u, v = draw(st.sampled_from(gates)), draw(st.sampled_from(gates))
+        if u != v and u not in byname[v][2]:
+            byname[v][2] = byname[v][2] + [u]
+    for gname in draw(st.lists(st.sampled_from(gates), min_size=1, max_size=3, unique=True)):
+        byname[gname][2] = byname[gname][2] + [draw(st.sampled_from(["i0", "i1"]))]
+    byname[order[-1]][3] = True
+    for x in nodes:
+        x[2] = list(draw(st.permutations(x[2])))
+    nodes = list(draw(st.permutations(nodes)))
+    return {"spec": {"name": "c", "nodes": nodes, "bbtypes": [], "insts": []}, "adv_names": False}
+
+
 def strategy(ctx):
-    return st.one_of(_case(ctx), _case(ctx), _series(ctx))
+    return st.one_of(_case(ctx), _case(ctx), _case(ctx), _series(ctx), _entangled(ctx))
 
 
 def _on_cycle(c):
